@@ -36,7 +36,12 @@ def setup_exact():
         raise RuntimeError("geomdl imported from %s, not from %s" % (here, REPO))
 
 
+FLOAT_MODE = [False]      # set by harness/floatrun.py: build plain doubles instead of exact numbers
+
+
 def q(x):
+    if FLOAT_MODE[0]:
+        return float(x)
     from qnum import Q
     return Q(F(x))
 
@@ -278,6 +283,58 @@ def load_known():
     return json.load(open(path))['findings']
 
 
+# ---------------------------------------------------------------- float-mode companion
+_NUM = re.compile(r'-?\d+(?:/\d+)?')
+
+
+def _float_close(exact, flt, tol):
+    """same text skeleton, every number within tol * max(1, magnitudes on the line)"""
+    if exact == flt:
+        return True
+    if (exact in ('ERR', 'HANG')) != (flt in ('ERR', 'HANG')):
+        return False
+    if _NUM.sub('#', exact) != _NUM.sub('#', flt):
+        return False
+    a = [F(t) for t in _NUM.findall(exact)]
+    b = [F(t) for t in _NUM.findall(flt)]
+    scale = max([F(1)] + [abs(x) for x in a])
+    return all(abs(x - y) <= tol * scale for x, y in zip(a, b))
+
+
+def float_companion(mod, cases, impl_out, tier):
+    """runs the cases of the kinds listed in mod.FLOAT_KINDS through the implementation in plain doubles
+    (separate interpreter) and compares with the exact-mode outputs; returns (report, [(case, why)])"""
+    kinds = getattr(mod, 'FLOAT_KINDS', None)
+    if not kinds or os.environ.get('VERIF_FLOAT', '1') == '0':
+        return None, []
+    tol = F(getattr(mod, 'FLOAT_TOL', 1e-7))
+    sel = [c for c in cases if c.line and c.kind in kinds and impl_out.get(id(c)) not in (None, 'HANG', 'SKIPPED-AFTER-HANGS')]
+    sel = sel[:(150 if tier == 'quick' else 1500)]
+    if not sel:
+        return dict(cases=0), []
+    import tempfile
+    with tempfile.NamedTemporaryFile('w', suffix='.json', delete=False) as f:
+        json.dump([c.to_json() for c in sel], f)
+        path = f.name
+    try:
+        rc, out, err = run([sys.executable, os.path.join(VERIF, 'harness', 'floatrun.py'), mod.PID, path], timeout=3600)
+    finally:
+        os.unlink(path)
+    if rc != 0:
+        return dict(cases=len(sel), error=(err or out)[-300:]), []
+    res = json.loads(out)
+    bad = []
+    worst = F(0)
+    for c, fo in zip(sel, res):
+        eo = impl_out[id(c)]
+        if not _float_close(eo, fo, tol):
+            bad.append((c, "floating point: the implementation run in doubles deviates from its exact run by more than %s (exact %s, doubles %s)"
+                        % (float(tol), eo[:120], fo[:120])))
+    return dict(cases=len(sel), kinds=sorted(kinds), tolerance=float(tol), deviations=len(bad),
+                rule="same implementation, same inputs, IEEE doubles instead of exact rationals (harness/floatrun.py); every number of the output "
+                     "within tolerance * max(1, largest magnitude on the line) of the exact run"), bad
+
+
 # ---------------------------------------------------------------- the check
 def check_property(mod, tier, seed, replay=None):
     t0 = time.time()
@@ -383,6 +440,13 @@ def check_property(mod, tier, seed, replay=None):
     # 4. search with the property's own oracle
     failures = []   # (case, why, finding_id or None)
     oracle_runs = 0
+    float_rep = None
+    try:
+        float_rep, fbad = float_companion(mod, with_line, impl_out, tier)
+        for c, why in fbad:
+            failures.append((c, why, mod.classify(c, why) if hasattr(mod, 'classify') else None))
+    except Exception as e:
+        float_rep = dict(error="%s: %s" % (type(e).__name__, e))
 
     def probe(c):
         try:
@@ -489,6 +553,7 @@ def check_property(mod, tier, seed, replay=None):
             samples=samples,
             generator=getattr(mod, 'STATS', {}),
             anchored_lines=anchored,
+            float_companion=float_rep,
             lean_build=build, leanchecker=recheck, problems=problems,
         ),
         assumptions=list(getattr(mod, 'ASSUMPTIONS', [])) + [
